@@ -3,6 +3,7 @@ package checks
 import (
 	"fmt"
 	"sort"
+	"strconv"
 	"strings"
 	"sync"
 	"time"
@@ -140,6 +141,54 @@ func (m *ruleModel) evalCond(c condSpec, nodeID string, p data.Point) (matches, 
 	return false, false
 }
 
+// applyCfg folds configuration points that reached the running rule into the condition's parameters
+// (only the identities the harness edits: start, end, weekday[k], date[k], value, valueText, operator).
+func (cs *condSpec) applyCfg(pts data.Points) {
+	hm := func(s string) int {
+		var h, m int
+		fmt.Sscanf(s, "%d:%d", &h, &m)
+		return h*60 + m
+	}
+	for _, p := range pts {
+		idx, _ := strconv.Atoi(p.Key)
+		switch p.Type {
+		case data.PointTypeStart:
+			cs.Sched.Start, cs.Sched.sMin = p.Text, hm(p.Text)
+		case data.PointTypeEnd:
+			cs.Sched.End, cs.Sched.eMin = p.Text, hm(p.Text)
+		case data.PointTypeWeekday:
+			if len(cs.WeekdayBs) < 7 {
+				cs.WeekdayBs = append(cs.WeekdayBs, make([]bool, 7-len(cs.WeekdayBs))...)
+			}
+			if idx >= 0 && idx < 7 {
+				cs.WeekdayBs[idx] = p.Value != 0
+			}
+			cs.Sched.Weekdays = nil
+			for w, on := range cs.WeekdayBs {
+				if on {
+					cs.Sched.Weekdays = append(cs.Sched.Weekdays, time.Weekday(w))
+				}
+			}
+		case data.PointTypeDate:
+			switch {
+			case p.Tombstone%2 == 1 && idx == len(cs.Sched.Dates)-1:
+				cs.Sched.Dates = cs.Sched.Dates[:idx]
+			case p.Tombstone%2 == 1:
+			case idx == len(cs.Sched.Dates):
+				cs.Sched.Dates = append(cs.Sched.Dates, p.Text)
+			case idx >= 0 && idx < len(cs.Sched.Dates):
+				cs.Sched.Dates[idx] = p.Text
+			}
+		case "value":
+			cs.Value = p.Value
+		case "valueText":
+			cs.ValueText = p.Text
+		case data.PointTypeOperator:
+			cs.Operator = p.Text
+		}
+	}
+}
+
 func (m *ruleModel) listRun(active bool) []sendKey {
 	run, other := m.Acts, m.Inas
 	if !active {
@@ -228,7 +277,7 @@ func multisetDiff(a, b []sendKey) (onlyA, onlyB []sendKey) {
 func runC13(tier string, _ []string) int {
 	c := vlib.NewCtx("C13", tier, "exploration")
 	vlib.SetPortBlock(13)
-	c.SetRule("per case a fresh instance with a real Rule client (client.NewManager + NewRuleClient) and a PRNG rule: 1-4 conditions mixing point conditions (number > < = !=, on/off, text = != contains; node / type / key filters) and schedule conditions (windows placed around the real UTC now: active, inactive, wrap-around; weekday filters), 0-3 set-value actions and 0-2 inactive actions with targets inside and outside the watched subtree; then 30-150 acknowledged batches from matching and non-matching nodes, types and keys with values at and around every threshold (+-eps, +-0, +-Inf) and triggers forced through foreign points to the rule node. Monitor: the verif hook sites rule.process / rule.send / rule.batchDone give the batches in the order the rule really processed them; a reference model of docs/user/rules.md is stepped over that sequence and after every batch compares condition states, rule state and the points the rule emitted; at settled points (marker batches through both input paths) the store content (active flags, action flags, target points with the rule as origin) must equal the model. distinct = (condition kinds/operators present, number of conditions, state transitions seen)")
+	c.SetRule("per case a fresh instance with a real Rule client (client.NewManager + NewRuleClient) and a PRNG rule: 1-4 conditions mixing point conditions (number > < = !=, on/off, text = != contains; node / type / key filters) and schedule conditions (windows placed around the real UTC now: active, inactive, wrap-around; weekday and date filters), 0-3 set-value actions and 0-2 inactive actions with targets inside and outside the watched subtree; then 30-150 acknowledged batches from matching and non-matching nodes, types and keys with values at and around every threshold (+-eps, +-0, +-Inf) and triggers forced through foreign points to the rule node; about one step in ten edits a condition of the running rule (date list grows / shrinks, weekday switched, threshold or text changed), the model follows the rule.configPoints events. Monitor: the verif hook sites rule.process / rule.send / rule.batchDone give the batches in the order the rule really processed them; a reference model of docs/user/rules.md is stepped over that sequence and after every batch compares condition states, rule state and the points the rule emitted; at settled points (marker batches through both input paths) the store content (active flags, action flags, target points with the rule as origin) must equal the model. distinct = (condition kinds/operators present, number of conditions, state transitions seen)")
 	c.Assume("action executions not associated with a change of rule state are tolerated for trigger batches (configuration changes re-run the current list today); NaN inputs are not generated; condition point types are disjoint from action point types so that the rule's own output never re-enters its conditions")
 	nRules := c.N(40, 800)
 	wd := c.NewWatchdog()
@@ -321,6 +370,20 @@ func runC13(tier string, _ []string) int {
 							pts = append(pts, wp)
 						}
 					}
+					if r.Chance(0.5) {
+						// a date filter around the real UTC date (the window's start day decides)
+						for q, off := range []int{-1, 0, 1, 40} {
+							if r.Chance(0.5) {
+								ds := now.AddDate(0, 0, off).Format("2006-01-02")
+								dp := pt(data.PointTypeDate, ds, 0)
+								dp.Key = fmt.Sprint(len(cs.Sched.Dates))
+								pts = append(pts, dp)
+								cs.Sched.Dates = append(cs.Sched.Dates, ds)
+								_ = q
+							}
+						}
+						feat["schedule-dates"] = true
+					}
 					feat["schedule"] = true
 				} else {
 					cs.Kind = data.PointValuePointValue
@@ -388,6 +451,8 @@ func runC13(tier string, _ []string) int {
 				mon.add(rEvent{Kind: "process", Node: args[1].(string), Points: append(data.Points{}, args[2].(data.Points)...)})
 			case "rule.send":
 				mon.add(rEvent{Kind: "send", Node: args[1].(string), Point: args[2].(data.Point)})
+			case "rule.configPoints":
+				mon.add(rEvent{Kind: "config", Node: args[1].(string), Points: append(data.Points{}, args[2].(data.Points)...)})
 			case "rule.batchDone":
 				mon.add(rEvent{Kind: "done", Config: copyRule(args[1].(client.Rule))})
 			}
@@ -410,6 +475,8 @@ func runC13(tier string, _ []string) int {
 				switch e.Kind {
 				case "process":
 					evs = append(evs, fmt.Sprintf("%d process node=%s %v", e.Seq, e.Node, witnessPoints(e.Points)))
+				case "config":
+					evs = append(evs, fmt.Sprintf("%d config node=%s %v", e.Seq, e.Node, witnessPoints(e.Points)))
 				case "send":
 					evs = append(evs, fmt.Sprintf("%d send to=%s type=%s value=%v text=%q origin=%q", e.Seq, e.Node, e.Point.Type, e.Point.Value, e.Point.Text, e.Point.Origin))
 				default:
@@ -442,6 +509,14 @@ func runC13(tier string, _ []string) int {
 				switch e.Kind {
 				case "process":
 					pendingProcess = append(pendingProcess, e)
+				case "config":
+					// configuration points merged by the running rule (between two batches)
+					for k := range model.Conds {
+						if model.Conds[k].ID == e.Node {
+							model.Conds[k].applyCfg(e.Points)
+							c.Count("config_edits_seen_by_the_rule", 1)
+						}
+					}
 				case "send":
 					pendingSends = append(pendingSends, sendKey{e.Node, e.Point.Type, e.Point.Text, e.Point.Origin, e.Point.Value})
 					if e.Point.Type == data.PointTypeError && e.Point.Text != "" {
@@ -622,6 +697,70 @@ func runC13(tier string, _ []string) int {
 				node = P
 			default:
 				node = sources[r.Intn(len(sources))]
+			}
+			if len(model.Conds) > 0 && r.Chance(0.1) {
+				// edit a condition of the running rule (at a settled point, so that the model's copy of the
+				// parameters and the order of events are unambiguous)
+				if !settle() {
+					c.Violate("rule:does-not-settle", "the rule keeps emitting points although its conditions cannot see its own output", witness(nil))
+					return
+				}
+				consume()
+				if !ok {
+					return
+				}
+				cs := model.Conds[r.Intn(len(model.Conds))]
+				var ep data.Points
+				ept := func(t, key, text string, v float64) data.Point {
+					return data.Point{Type: t, Key: key, Time: d.now(), Text: text, Value: v, Origin: "harness"}
+				}
+				if cs.Kind == data.PointValueSchedule {
+					switch r.Intn(4) {
+					case 0, 1: // the date list grows by one entry
+						ds := now.AddDate(0, 0, []int{-1, 0, 0, 1, 40}[r.Intn(5)]).Format("2006-01-02")
+						ep = data.Points{ept(data.PointTypeDate, fmt.Sprint(len(cs.Sched.Dates)), ds, 0)}
+						feat["edit-date-added"] = true
+					case 2: // the last date is deleted
+						if n := len(cs.Sched.Dates); n > 0 {
+							p := ept(data.PointTypeDate, fmt.Sprint(n-1), cs.Sched.Dates[n-1], 0)
+							p.Tombstone = 1
+							ep = data.Points{p}
+							feat["edit-date-removed"] = true
+						}
+					default: // a weekday is switched
+						w := r.Intn(7)
+						v := 1.0
+						if w < len(cs.WeekdayBs) && cs.WeekdayBs[w] {
+							v = 0
+						}
+						ep = data.Points{ept(data.PointTypeWeekday, fmt.Sprint(w), "", v)}
+						feat["edit-weekday"] = true
+					}
+				} else {
+					switch cs.ValueType {
+					case data.PointValueNumber:
+						ep = data.Points{ept("value", "", "", []float64{0, 5, -2.5, 100, 1e9}[r.Intn(5)])}
+					case data.PointValueText:
+						ep = data.Points{ept("valueText", "", []string{"on", "alarm", "A b", ""}[r.Intn(4)], 0)}
+					default:
+						ep = data.Points{ept("value", "", "", float64(r.Intn(2)))}
+					}
+					feat["edit-threshold"] = true
+				}
+				if len(ep) > 0 {
+					mustSend(d.sendNode(cs.ID, ep))
+					c.Eval(1)
+					c.Count("condition_edits_sent", 1)
+					if !settle() {
+						c.Violate("rule:does-not-settle", "the rule keeps emitting points although its conditions cannot see its own output", witness(nil))
+						return
+					}
+					consume()
+					if !ok {
+						return
+					}
+				}
+				continue
 			}
 			if r.Chance(0.08) {
 				// force a trigger through a foreign point to the rule node
